@@ -16,7 +16,8 @@ import (
 
 type c01Case struct {
 	G      *ref.G `json:"g"`
-	Mode   string `json:"mode"` // setcoords | flat | push | mismatch
+	Mode   string `json:"mode"` // setcoords | flat | push | maybeempty | mismatch | mismatch2 | selfalias
+	Pos2   int    `json:"pos2,omitempty"`
 	Pos    int    `json:"pos,omitempty"`
 	BadLen int    `json:"bad_len,omitempty"` // mismatch: -1 = nil coordinate, else length
 }
@@ -75,8 +76,15 @@ func c01Run(c *engine.Ctx) {
 		for _, mode := range []string{"setcoords", "flat", "push"} {
 			c01Exec(c, c01Case{G: large[i], Mode: mode})
 		}
+		c01Exec(c, c01Case{G: large[i], Mode: "selfalias"})
 		nc := numCoords(large[i])
 		st := large[i].Layout.Stride()
+		// pairs of cancelling wrong lengths: adjacent, far apart, around position 8
+		for _, pr := range [][2]int{{0, 1}, {0, nc - 1}, {nc / 2, nc/2 + 1}, {7, 8}, {8, 3}, {nc - 1, 0}, {1, 9}} {
+			if pr[0] < nc && pr[1] < nc && pr[0] != pr[1] && pr[0] >= 0 && pr[1] >= 0 {
+				c01Exec(c, c01Case{G: large[i], Mode: "mismatch2", Pos: pr[0], Pos2: pr[1]})
+			}
+		}
 		for _, pos := range []int{0, nc / 2, nc - 1} {
 			for _, bad := range []int{st - 1, st + 1, -1} {
 				c01Exec(c, c01Case{G: large[i], Mode: "mismatch", Pos: pos, BadLen: bad})
@@ -127,9 +135,17 @@ func c01Run(c *engine.Ctx) {
 				}
 			}
 		}
+		c01Exec(c, c01Case{G: g, Mode: "selfalias"})
 		// every single-coordinate length mismatch
 		if g.Layout != geom.NoLayout {
 			nc := numCoords(g)
+			for a := 0; a < nc; a++ {
+				for b := 0; b < nc; b++ {
+					if a != b && g.Kind != ref.MultiPolygon {
+						c01Exec(c, c01Case{G: g, Mode: "mismatch2", Pos: a, Pos2: b})
+					}
+				}
+			}
 			stride := g.Layout.Stride()
 			for pos := 0; pos < nc; pos++ {
 				for _, bad := range []int{stride - 1, stride + 1, 0, -1} {
@@ -286,6 +302,43 @@ func c01Exec(c *engine.Ctx, cs c01Case) {
 	fail := func(what, desc string) {
 		c.Violate(keyBase+"/"+what, desc+" model="+g.String(), "c01", cs)
 	}
+	if cs.Mode == "selfalias" {
+		c01SelfAlias(c, cs, fail)
+		return
+	}
+	if cs.Mode == "mismatch2" {
+		// two wrong-length coordinates whose lengths cancel (stride-1 and stride+1)
+		h := g.Clone()
+		k := 0
+		st := g.Layout.Stride()
+		eachCoord(h, func(p *ref.C) {
+			if k == cs.Pos {
+				*p = make(ref.C, st-1)
+			}
+			if k == cs.Pos2 {
+				*p = make(ref.C, st+1)
+			}
+			k++
+		})
+		var t geom.T
+		var err error
+		if p, _ := engine.Guard(func() { t, err = h.Build() }); p != nil {
+			fail("panic", fmt.Sprintf("panic %v", p))
+			return
+		}
+		var sm geom.ErrStrideMismatch
+		if err == nil || !errors.As(err, &sm) {
+			fail("accepted", fmt.Sprintf("coordinates %d and %d of lengths %d and %d accepted (stride %d): err=%v", cs.Pos, cs.Pos2, st-1, st+1, st, err))
+			return
+		}
+		if t != nil && !isNilT(t) {
+			fail("non-nil-result", "non-nil geometry returned with an error")
+			return
+		}
+		c.Count("mismatch_rejected", 1)
+		c.DistinctStr(mustJSON(cs))
+		return
+	}
 	if cs.Mode == "mismatch" {
 		h := g.Clone()
 		k := 0
@@ -430,6 +483,49 @@ func c01Exec(c *engine.Ctx, cs c01Case) {
 		c.DistinctStr(mustJSON(cs))
 	}
 	c.Sample(cs.Mode, 2, cs)
+}
+
+// c01SelfAlias: SetCoords with an argument that aliases the receiver's own storage (views
+// returned by Coord(i)), in reversed order: what is read back must be what was passed in.
+func c01SelfAlias(c *engine.Ctx, cs c01Case, fail func(what, desc string)) {
+	g := cs.G
+	if g.Kind != ref.LineString && g.Kind != ref.LinearRing || len(g.C1) < 2 || g.Layout == geom.NoLayout {
+		return
+	}
+	want := g.Clone()
+	for i, j := 0, len(want.C1)-1; i < j; i, j = i+1, j-1 {
+		want.C1[i], want.C1[j] = want.C1[j], want.C1[i]
+	}
+	var t geom.T
+	p, _ := engine.Guard(func() {
+		t = g.MustBuild()
+		type coorder interface {
+			Coord(i int) geom.Coord
+			NumCoords() int
+		}
+		co := t.(coorder)
+		n := co.NumCoords()
+		views := make([]geom.Coord, n)
+		for i := 0; i < n; i++ {
+			views[i] = co.Coord(n - 1 - i)
+		}
+		switch tt := t.(type) {
+		case *geom.LineString:
+			tt.MustSetCoords(views)
+		case *geom.LinearRing:
+			tt.MustSetCoords(views)
+		}
+	})
+	if p != nil {
+		fail("panic", fmt.Sprintf("panic %v", p))
+		return
+	}
+	if d := observeEq(t, want, ref.EqualOpt{}); d != "" {
+		fail("lossy", "SetCoords with views of the receiver's own coordinates (reversed): "+d)
+		return
+	}
+	c.Count("selfalias_ok", 1)
+	c.DistinctStr(mustJSON(cs))
 }
 
 func isNilT(t geom.T) bool {
